@@ -614,10 +614,15 @@ static sb_error_t sb_i_poly_solve_4d(const sb_poly_t* poly, float rhs, float* ro
 
     float p = (3 * c - b * b) / 3;
     float q = (2 * b * b * b - 9 * b * c + 27 * d) / 27;
-    float delta = (q * q) / 4 + (p * p * p) / 27;
+    float q2 = (q * q) / 4;
+    float p3 = (p * p * p) / 27;
+    float delta = q2 + p3;
     float offset = -b / 3;
 
-    if (fabsf(delta) < 1e-8f) {
+    /* The discriminant is zero up to rounding, relative to the size of its two
+     * terms (an absolute threshold would merge well separated roots whenever
+     * all roots are small) */
+    if (fabsf(delta) <= 1e-5f * (q2 + fabsf(p3))) {
         float u = cbrtf(-q / 2);
 
         /* one or two real roots */
